@@ -71,6 +71,11 @@ def h_elig(kind: int, drv: int, e: float, mv: int, mr: int, assigned: bool) -> b
     pre: 0 <= kind <= 6 and 0 <= drv <= 2 and 0 <= mv <= 4 and 0 <= mr <= 2 and 0 <= e <= 50
     post: _
     """
+    return _elig_body(kind, drv, e, mv, mr, assigned)
+
+
+def _elig_body(kind, drv, e, mv, mr, assigned):
+    # (no contract of its own: CrossHair drops paths on which a CALLED function's postcondition fails)
     fleets = FLEETS[CASE]
     k = None
     for i in range(7):
@@ -157,7 +162,7 @@ def h_disp_shift(kind: int, drv: int, e: float, mv: int, mr: int, assigned: bool
     pre: 0 <= kind <= 6 and 0 <= drv <= 2 and 0 <= mv <= 4 and 0 <= mr <= 2 and 0 <= e <= 50
     post: _
     """
-    return h_elig(kind, drv, e, mv, mr, assigned)
+    return _elig_body(kind, drv, e, mv, mr, assigned)
 
 
 # ------------------------------------------------------------------------------------- matching
